@@ -217,20 +217,20 @@ impl AggregateExecutionEngine {
                 let column_value = expression_execution_engine.evaluate(expression)?;
 
                 if let Value::String(column_value) = column_value {
+                    // NULL until the first value arrives, so that an empty first value still gets its delimiter
                     let group_value = self.get_group_value(
                         group_key.clone(),
                         aggregate_index,
                         || {
-                            Ok(Value::String(String::new()))
+                            Ok(Value::Null)
                         }
                     )?;
 
                     if let Value::String(group_value) = group_value {
-                        if !group_value.is_empty() {
-                            group_value.push_str(delimiter);
-                        }
-
+                        group_value.push_str(delimiter);
                         group_value.push_str(&column_value);
+                    } else {
+                        *group_value = Value::String(column_value);
                     }
                 } else if column_value.is_not_null() {
                     return Err(ExecutionError::ExpectedStringValue);
